@@ -290,6 +290,13 @@ fn __collect(state: &State, possible_cycles: &PossibleCycles) {
         let mut root_list = LinkedList::new();
         let mut queue = LinkedQueue::new();
 
+        // A collection can be started from a finalizer or a destructor run by Cc::drop, which sets
+        // finalizing/dropping without setting collecting. Mask those two flags while tracing, so that
+        // is_tracing() is true during every Trace::trace call. The guards restore them (also on unwind).
+        #[cfg(feature = "finalization")]
+        let _finalizing_guard = replace_state_field!(finalizing, false, state);
+        let _dropping_guard = replace_state_field!(dropping, false, state);
+
         trace_counting(possible_cycles, &mut root_list, &mut non_root_list, &mut queue);
         trace_roots(root_list, &mut non_root_list, queue);
     }
